@@ -3,6 +3,7 @@ package main
 import (
 	"fmt"
 	"go/token"
+	"go/types"
 	"strings"
 
 	"golang.org/x/tools/go/ssa"
@@ -60,7 +61,43 @@ func ruleR15(p *Prog) []Ob {
 				}
 			}
 		}
+		// the acquisition may sit in a small helper Open hands the lock and the mode to
+		var helperCall *ssa.Call
 		if len(acq) == 0 {
+			for _, b := range open.Blocks {
+				if !reach[b] {
+					continue
+				}
+				for _, ins := range b.Instrs {
+					c, ok := ins.(*ssa.Call)
+					if !ok {
+						continue
+					}
+					g := c.Common().StaticCallee()
+					if g == nil || !inModule(g) || g.Blocks == nil || !isErrType(c.Type()) {
+						continue
+					}
+					for _, gb := range g.Blocks {
+						for _, gi := range gb.Instrs {
+							if gc, ok := gi.(*ssa.Call); ok {
+								switch flockOp(gc.Common()) {
+								case "TryLock", "TryRLock", "Lock", "RLock", "TryLockContext", "TryRLockContext":
+									helperCall = c
+								}
+							}
+						}
+					}
+				}
+			}
+		}
+		if helperCall != nil {
+			hb, ok := p.judgeLockHelper(ea, helperCall, assume, mode.want, mode.ro)
+			bad = append(bad, hb...)
+			if ok {
+				acq = append(acq, helperCall)
+			}
+		}
+		if len(acq) == 0 && helperCall == nil {
 			bad = append(bad, fmt.Sprintf("no %s on the directory lock is reachable with Readonly=%v", mode.want, mode.ro))
 		}
 		succ := func(b *ssa.BasicBlock) []*ssa.BasicBlock { return p.prunedSuccs(b, assume) }
@@ -93,6 +130,10 @@ func ruleR15(p *Prog) []Ob {
 			// (2) the not-ok and the error outcomes never reach a success return
 			okV := okVal(c)
 			errV := errResultOfCall(c)
+			isHelper := c == helperCall
+			if isHelper {
+				okV = nil // the helper folds "not obtained" into its error
+			}
 			var failStarts []*ssa.BasicBlock
 			okTested, errTested := false, false
 			var cont []*ssa.BasicBlock // where control continues with the lock held
@@ -133,8 +174,22 @@ func ruleR15(p *Prog) []Ob {
 					}
 				}
 			}
-			if !okTested {
+			if !okTested && !isHelper {
 				bad = append(bad, fmt.Sprintf("%s: the ok result of %s is never tested (Open succeeds while someone else holds the lock)", p.at(c), mode.want))
+			}
+			if isHelper {
+				// with the lock held control continues on the nil edge of the helper's error
+				for b := range reachFrom([]*ssa.BasicBlock{c.Block()}, nil) {
+					if iff, isIf := terminator(b).(*ssa.If); isIf {
+						if t, ok := classifyErrCond(iff.Cond, errV); ok && t.kind == "nil" {
+							if t.trueMeans {
+								cont = append(cont, b.Succs[0])
+							} else {
+								cont = append(cont, b.Succs[1])
+							}
+						}
+					}
+				}
 			}
 			if !errTested {
 				bad = append(bad, fmt.Sprintf("%s: the error result of %s is never tested", p.at(c), mode.want))
@@ -146,6 +201,15 @@ func ruleR15(p *Prog) []Ob {
 			}
 			// (3) release on failed open: a deferred conditional Unlock covers every return after the lock was taken
 			var lockV ssa.Value = c.Call.Args[0]
+			if isHelper {
+				for _, a := range c.Call.Args {
+					if pt, ok := a.Type().(*types.Pointer); ok {
+						if n := namedOf(pt.Elem()); n != nil && n.Obj().Pkg() != nil && n.Obj().Pkg().Path() == flockPkg {
+							lockV = a
+						}
+					}
+				}
+			}
 			var def *ssa.Defer
 			for _, b := range open.Blocks {
 				for _, ins := range b.Instrs {
@@ -356,4 +420,145 @@ func deferredErrAlloc(d *ssa.Defer) *ssa.Alloc {
 		}
 	}
 	return nil
+}
+
+// judgeLockHelper: cs calls a helper g that takes the directory lock. Inside g, with the helper's
+// boolean parameters bound to the options they are given at cs, only the wanted operation is
+// reachable, its ok and error results are tested, and g returns success only where the lock was
+// obtained.
+func (p *Prog) judgeLockHelper(ea *ErrAtoms, cs *ssa.Call, assume Assume, want string, ro bool) (bad []string, ok bool) {
+	g := cs.Common().StaticCallee()
+	bind := map[*ssa.Parameter]string{}
+	for i, pr := range g.Params {
+		if i < len(cs.Call.Args) {
+			if bt, isB := pr.Type().Underlying().(*types.Basic); isB && bt.Kind() == types.Bool {
+				if name, neg := p.optionField(cs.Call.Args[i]); name != "" && !neg {
+					bind[pr] = name
+				}
+			}
+		}
+	}
+	succ := func(b *ssa.BasicBlock) []*ssa.BasicBlock {
+		iff, isIf := terminator(b).(*ssa.If)
+		if !isIf {
+			return b.Succs
+		}
+		cond, pos := iff.Cond, true
+		for {
+			u, isU := cond.(*ssa.UnOp)
+			if !isU || u.Op != token.NOT {
+				break
+			}
+			pos, cond = !pos, u.X
+		}
+		pr, isP := cond.(*ssa.Parameter)
+		if !isP || bind[pr] == "" {
+			return p.prunedSuccs(b, assume)
+		}
+		val, known := assume[bind[pr]]
+		if !known {
+			return b.Succs
+		}
+		if val == pos {
+			return b.Succs[:1]
+		}
+		return b.Succs[1:2]
+	}
+	reachFrom := func(starts []*ssa.BasicBlock, avoid map[*ssa.BasicBlock]bool) map[*ssa.BasicBlock]bool {
+		seen := map[*ssa.BasicBlock]bool{}
+		work := append([]*ssa.BasicBlock{}, starts...)
+		for len(work) > 0 {
+			x := work[len(work)-1]
+			work = work[:len(work)-1]
+			if seen[x] || avoid[x] {
+				continue
+			}
+			seen[x] = true
+			work = append(work, succ(x)...)
+		}
+		return seen
+	}
+	isSuccess := func(b *ssa.BasicBlock) bool {
+		rt, isRt := terminator(b).(*ssa.Return)
+		return isRt && b != g.Recover && !ea.isFailureReturn(g, rt)
+	}
+	reach := reachFrom([]*ssa.BasicBlock{g.Blocks[0]}, nil)
+	var acq []*ssa.Call
+	for _, b := range g.Blocks {
+		if !reach[b] {
+			continue
+		}
+		for _, ins := range b.Instrs {
+			c, isC := ins.(*ssa.Call)
+			if !isC {
+				continue
+			}
+			switch op := flockOp(c.Common()); op {
+			case "TryLock", "TryRLock", "Lock", "RLock", "TryLockContext", "TryRLockContext":
+				if op != want {
+					bad = append(bad, fmt.Sprintf("%s: %s is reachable in %s with Readonly=%v (expected %s only)", p.at(c), op, funcLabel(g), ro, want))
+				} else {
+					acq = append(acq, c)
+				}
+			}
+		}
+	}
+	if len(acq) == 0 {
+		bad = append(bad, fmt.Sprintf("no %s on the directory lock is reachable in %s with Readonly=%v", want, funcLabel(g), ro))
+		return bad, false
+	}
+	for _, c := range acq {
+		for b := range reachFrom([]*ssa.BasicBlock{g.Blocks[0]}, map[*ssa.BasicBlock]bool{c.Block(): true}) {
+			if isSuccess(b) {
+				bad = append(bad, fmt.Sprintf("%s: %s can succeed without having tried to take the directory lock", p.at(terminator(b)), funcLabel(g)))
+			}
+		}
+		okV, errV := okVal(c), errResultOfCall(c)
+		okTested, errTested := false, false
+		var failStarts []*ssa.BasicBlock
+		for b := range reachFrom([]*ssa.BasicBlock{c.Block()}, nil) {
+			iff, isIf := terminator(b).(*ssa.If)
+			if !isIf {
+				continue
+			}
+			cond, pos := iff.Cond, true
+			for {
+				u, isU := cond.(*ssa.UnOp)
+				if !isU || u.Op != token.NOT {
+					break
+				}
+				pos, cond = !pos, u.X
+			}
+			if okV != nil && cond == okV {
+				okTested = true
+				if pos {
+					failStarts = append(failStarts, b.Succs[1])
+				} else {
+					failStarts = append(failStarts, b.Succs[0])
+				}
+			}
+			if errV != nil {
+				if t, isT := classifyErrCond(iff.Cond, errV); isT && t.kind == "nil" {
+					errTested = true
+					if t.trueMeans {
+						failStarts = append(failStarts, b.Succs[1])
+					} else {
+						failStarts = append(failStarts, b.Succs[0])
+					}
+				}
+			}
+		}
+		if !okTested {
+			bad = append(bad, fmt.Sprintf("%s: the ok result of %s is never tested (Open succeeds while someone else holds the lock)", p.at(c), want))
+		}
+		if !errTested {
+			bad = append(bad, fmt.Sprintf("%s: the error result of %s is never tested", p.at(c), want))
+		}
+		for b := range reachFrom(failStarts, nil) {
+			if isSuccess(b) {
+				bad = append(bad, fmt.Sprintf("%s: %s can succeed although %s did not obtain the lock", p.at(terminator(b)), funcLabel(g), want))
+			}
+		}
+	}
+	return bad, true
 }
